@@ -12,6 +12,8 @@ structure Inv (w : W) : Prop where
   fresh : ∀ id, id ∈ w.reserved → id ∉ w.members
   /-- no two calls in flight for one id -/
   uniq : ∀ c id c', (c, id) ∈ w.inflight → (c', id) ∈ w.inflight → c = c'
+  /-- every reservation belongs to a call in flight (no reservation is ever leaked) -/
+  owned : ∀ id, id ∈ w.reserved → ∃ c, (c, id) ∈ w.inflight
   /-- one entry per call -/
   cuniq : ∀ c id id', (c, id) ∈ w.inflight → (c, id') ∈ w.inflight → id = id'
   rnodup : w.reserved.Nodup
@@ -49,6 +51,12 @@ theorem inv_reserve {w : W} (h : Inv w) (c id : Nat) (ctr : Nat) (ht : taken w i
     · exact absurd (h.held _ _ h2) hr
     · subst h2e; exact absurd (h.held _ _ h1) hr
     · exact h.uniq _ _ _ h1 h2
+  · intro id' hmem
+    simp only [List.mem_cons] at hmem
+    rcases hmem with rfl | hmem
+    · exact ⟨c, by simp⟩
+    · obtain ⟨c', hc'⟩ := h.owned id' hmem
+      exact ⟨c', List.mem_cons_of_mem _ hc'⟩
   · intro c1 id1 id2 h1 h2
     have hno : ∀ i, (c, i) ∉ w.inflight := by
       intro i hi
@@ -88,6 +96,16 @@ theorem inv_fail {w : W} (h : Inv w) (c id : Nat) (hin : (c, id) ∈ w.inflight)
   · intro c1 id1 c2 h1 h2
     simp only [List.mem_filter] at h1 h2
     exact h.uniq _ _ _ h1.1 h2.1
+  · intro id' hmem
+    have hne : id' ≠ id := by
+      intro e; subst e
+      exact (List.Nodup.not_mem_erase h.rnodup) hmem
+    obtain ⟨c', hc'⟩ := h.owned id' (List.mem_of_mem_erase hmem)
+    refine ⟨c', ?_⟩
+    simp only [List.mem_filter, bne_iff_ne, ne_eq]
+    refine ⟨hc', ?_⟩
+    intro e; subst e
+    exact hne (h.cuniq _ _ _ hc' hin)
   · intro c1 id1 id2 h1 h2
     simp only [List.mem_filter] at h1 h2
     exact h.cuniq _ _ _ h1.1 h2.1
@@ -118,6 +136,16 @@ theorem inv_register {w : W} (h : Inv w) (c id : Nat) (hin : (c, id) ∈ w.infli
   · intro c1 id1 c2 h1 h2
     simp only [List.mem_filter] at h1 h2
     exact h.uniq _ _ _ h1.1 h2.1
+  · intro id' hmem
+    have hne : id' ≠ id := by
+      intro e; subst e
+      exact (List.Nodup.not_mem_erase h.rnodup) hmem
+    obtain ⟨c', hc'⟩ := h.owned id' (List.mem_of_mem_erase hmem)
+    refine ⟨c', ?_⟩
+    simp only [List.mem_filter, bne_iff_ne, ne_eq]
+    refine ⟨hc', ?_⟩
+    intro e; subst e
+    exact hne (h.cuniq _ _ _ hc' hin)
   · intro c1 id1 id2 h1 h2
     simp only [List.mem_filter] at h1 h2
     exact h.cuniq _ _ _ h1.1 h2.1
